@@ -1,21 +1,13 @@
 (* C10 — Generation is deterministic and idempotent.
-   Property theorems only; proofs live in Base/SortUniq.v and Proofs/NondetP.v. *)
+   Property theorems only; proofs live in Base/SortUniq.v, Proofs/NondetP.v and Proofs/NondetDfs.v.
+   The model is the code after 93e79d6 (sets that reach emitted text are iterated sorted) and be644af
+   (ClientForwardRefs no longer mutates shared import nodes): every statement below is unguarded.  The
+   witnesses of the three repaired findings stay as regression Examples on the pre-fix functions
+   (op_import_names_unsorted, frag_module_order_unsorted, gen_client_imports_mutating). *)
 From Coq Require Import List String Ascii Bool Arith Permutation.
 From AC Require Import Base.Strs Base.SortUniq Model.Nondet Proofs.NondetP Proofs.NondetDfs.
 Import ListNotations.
 Local Open Scope string_scope.
-
-(* ---- full statements ---- *)
-(* the class order of the fragments module never depends on how sets happen to iterate *)
-Definition C10_fragments_module_full : Prop := forall o1 o2 fi,
-  frag_module_order false o1 fi = frag_module_order false o2 fi.
-(* neither do the names of `from .fragments import ...` in an operation module *)
-Definition C10_operation_imports_full : Prop := forall c1 c2 mixins, NoDup mixins ->
-  op_import_names false c1 mixins = op_import_names false c2 mixins.
-(* every site of the table is oracle-independent *)
-Definition C10_sites_full : Prop := forall s, In s site_table ->
-  forall l c1 c2 probe, NoDup l ->
-  observe (s_sink s) (permute c1 l) probe = observe (s_sink s) (permute c2 l) probe.
 
 (* ---- oracles = permutations (so "for all oracles" is "for all iteration orders") ---- *)
 Theorem C10_oracle_sound : forall (o : list nat) (l : list string), Permutation (permute o l) l.
@@ -37,43 +29,25 @@ Theorem C10_sorted_is_oracle_independent : forall l1 l2 : list string,
 Proof. exact str_sort_perm_invariant. Qed.
 Print Assumptions C10_sorted_is_oracle_independent.
 
-Theorem C10_sort_by_key_partial : forall l1 l2 : list string,
+(* isort alone (a stable sort on a case-insensitive key) is canonical only for distinct keys: this is why the
+   generator must sort the set itself before handing the names over *)
+Theorem C10_sort_by_key_distinct_keys : forall l1 l2 : list string,
   NoDup (map isort_key l1) -> Permutation l1 l2 -> isort_names l1 = isort_names l2.
 Proof. exact isort_names_perm_invariant. Qed.
-Print Assumptions C10_sort_by_key_partial.
+Print Assumptions C10_sort_by_key_distinct_keys.
 
-(* ---- the fragment DFS ---- *)
+(* ---- the fragments module: generation order and class order, all inputs, all oracles, any fuel ---- *)
 Theorem C10_toposort_oracle_independent : forall o1 o2 fi,
-  frag_module_order true o1 fi = frag_module_order true o2 fi.
+  frag_module_order o1 fi = frag_module_order o2 fi.
 Proof. exact toposort_oracle_independent. Qed.
 Print Assumptions C10_toposort_oracle_independent.
 
-Theorem C10_toposort_partial : forall o1 o2 fi, g_c10_dfs fi = true ->
-  frag_module_order false o1 fi = frag_module_order false o2 fi.
-Proof. exact toposort_unsorted_partial. Qed.
-Print Assumptions C10_toposort_partial.
-
-Theorem C10_toposort_refuted : exists o1 o2 fi,
-  frag_module_order false o1 fi <> frag_module_order false o2 fi /\
-  frag_module_order false o1 fi <> None /\ frag_module_order false o2 fi <> None.
-Proof. exact toposort_refuted. Qed.
-Print Assumptions C10_toposort_refuted.
-
-Theorem C10_fragments_module_full_refuted : ~ C10_fragments_module_full.
-Proof.
-  intro H. destruct toposort_refuted as [o1 [o2 [fi [D _]]]]. apply D. apply H.
-Qed.
-
-(* what F12 can and cannot do: for ANY two oracles and either form of the DFS, fragments are generated in the
-   same order and the module holds the same fragments exactly once each, among them every requested one —
-   only the ORDER of the classes is exposed to the oracle *)
-Theorem C10_toposort_same_classes : forall sd1 sd2 o1 o2 fi p1 ord1 p2 ord2,
-  frag_module_order sd1 o1 fi = Some (p1, ord1) ->
-  frag_module_order sd2 o2 fi = Some (p2, ord2) ->
-  p1 = p2 /\ Permutation ord1 ord2 /\ NoDup ord1 /\
-  (forall x, In x (set_diff (fi_defs fi) (fi_excl fi)) -> In x ord1).
-Proof. exact frag_module_same_classes. Qed.
-Print Assumptions C10_toposort_same_classes.
+(* ... and when it succeeds the module holds every requested fragment, none twice *)
+Theorem C10_fragments_module_complete : forall o fi p ord,
+  frag_module_order o fi = Some (p, ord) ->
+  NoDup ord /\ (forall x, In x (set_diff (fi_defs fi) (fi_excl fi)) -> In x ord).
+Proof. exact frag_module_complete. Qed.
+Print Assumptions C10_fragments_module_complete.
 
 Theorem C10_generation_order_independent : forall o1 o2 fi fuel queue names processed,
   work fuel o1 fi queue names processed = work fuel o2 fi queue names processed.
@@ -89,65 +63,33 @@ Theorem C10_typename_literal_independent : forall c1 c2 abs tn ps,
   typename_literal c1 abs tn ps = typename_literal c2 abs tn ps.
 Proof. exact typename_literal_independent. Qed.
 Print Assumptions C10_typename_literal_independent.
-Theorem C10_typename_unsorted_refuted : exists c1 c2 abs tn ps,
-  typename_values_raw c1 abs tn ps <> typename_values_raw c2 abs tn ps.
-Proof. exact typename_values_raw_refuted. Qed.
 
-(* ---- import names of an operation module ---- *)
-Theorem C10_operation_imports_partial : forall c1 c2 mixins, g_c10_imports mixins ->
-  op_import_names false c1 mixins = op_import_names false c2 mixins.
-Proof. exact op_import_names_partial. Qed.
-Print Assumptions C10_operation_imports_partial.
+(* ---- import names of an operation module: all mixin sets, all oracles ---- *)
+Theorem C10_operation_imports_independent : forall c1 c2 mixins,
+  op_import_names c1 mixins = op_import_names c2 mixins.
+Proof. exact op_import_names_independent. Qed.
+Print Assumptions C10_operation_imports_independent.
 
-Theorem C10_operation_imports_refuted : exists c1 c2 mixins,
-  NoDup mixins /\ op_import_names false c1 mixins <> op_import_names false c2 mixins.
-Proof. exact op_import_names_refuted. Qed.
-Print Assumptions C10_operation_imports_refuted.
-
-Theorem C10_operation_imports_full_refuted : ~ C10_operation_imports_full.
-Proof.
-  intro H. destruct op_import_names_refuted as [c1 [c2 [m [N D]]]]. apply D. apply H. exact N.
-Qed.
-
-Theorem C10_operation_imports_fixed : forall c1 c2 mixins,
-  op_import_names true c1 mixins = op_import_names true c2 mixins.
-Proof. exact op_import_names_fixed_independent. Qed.
-
-(* ---- the site table ---- *)
-Theorem C10_emission_oracle_independent : forall s, In s site_table -> order_sensitive (s_sink s) = false ->
+(* ---- the site table: EVERY row ---- *)
+Theorem C10_emission_oracle_independent : forall s, In s site_table ->
   forall l c1 c2 probe, observe (s_sink s) (permute c1 l) probe = observe (s_sink s) (permute c2 l) probe.
 Proof. exact emission_oracle_independent. Qed.
 Print Assumptions C10_emission_oracle_independent.
 
-Theorem C10_emission_isort_partial : forall l c1 c2 probe, NoDup (map isort_key l) ->
-  observe SkIsort (permute c1 l) probe = observe SkIsort (permute c2 l) probe.
-Proof. exact observe_isort_partial. Qed.
+(* no row has an order-sensitive sink *)
+Example C10_sensitive_sites : sensitive_sites = [].
+Proof. vm_compute. reflexivity. Qed.
 
-Theorem C10_emission_refuted : forall s, In s site_table -> order_sensitive (s_sink s) = true ->
-  exists l c1 c2 probe, NoDup l /\
-    observe (s_sink s) (permute c1 l) probe <> observe (s_sink s) (permute c2 l) probe.
-Proof. exact emission_refuted. Qed.
-Print Assumptions C10_emission_refuted.
+(* why none may: a site whose order reaches the text raw, or only through isort, IS oracle-dependent *)
+Theorem C10_raw_and_isort_sinks_are_order_sensitive : forall k, order_sensitive k = true ->
+  exists l c1 c2 probe, NoDup l /\ observe k (permute c1 l) probe <> observe k (permute c2 l) probe.
+Proof. exact observe_refuted. Qed.
+Print Assumptions C10_raw_and_isort_sinks_are_order_sensitive.
 
-Theorem C10_sites_full_refuted : ~ C10_sites_full.
-Proof.
-  intro H.
-  set (s := St "client_generators/fragments.py" "FragmentsGenerator._get_sorted_fragments_names.visit"
-               "iter" "dependencies_dict[name]" SkRaw
-               "F12: class order of fragments.py follows the iteration order of a set (frag_module_order false)").
-  assert (Hin : In s site_table) by (vm_compute; tauto).
-  specialize (H s Hin ["a"; "b"] [] [1] "").
-  assert (N : NoDup ["a"; "b"]) by (repeat constructor; simpl; intuition discriminate).
-  specialize (H N). vm_compute in H. discriminate.
-Qed.
-
-(* the order-sensitive rows, computed: the two findings plus the plugin import sites *)
-Example C10_sensitive_sites : sensitive_sites =
-  [("client_generators/fragments.py", "FragmentsGenerator._get_sorted_fragments_names.visit", "dependencies_dict[name]");
-   ("client_generators/result_types.py", "ResultTypesGenerator._add_enums_scalars_fragments_imports", "self._fragments_used_as_mixins");
-   ("contrib/client_forward_refs.py", "ClientForwardRefsPlugin._add_forward_ref_imports", "self.input_and_return_types");
-   ("contrib/shorter_results.py", "ShorterResultsPlugin.generate_client_module", "self.extended_imports[stmt.module]");
-   ("contrib/shorter_results.py", "ShorterResultsPlugin.generate_client_module", "alias")].
+(* the graphqlschema strategy: its generator package has one set, a membership constant *)
+Example C10_schema_strategy_sites :
+  map (fun s => (s_ctx s, sink_name (s_sink s)))
+      (filter (fun s => String.prefix "graphql_schema_generators/" (s_file s)) site_table) = [("construct", "none")].
 Proof. vm_compute. reflexivity. Qed.
 
 (* ---- directory listing; both strategies ---- *)
@@ -160,16 +102,6 @@ Theorem C10_strategy_independent_of_listing : forall (X : Type) (generate : stri
   NoDup (map fst files) -> generate (load_dir_text c1 files) = generate (load_dir_text c2 files).
 Proof. intros X. exact (@strategy_independent_of_listing X). Qed.
 Print Assumptions C10_strategy_independent_of_listing.
-
-(* the graphqlschema strategy: no order-sensitive site in its generator package or in the schema loader
-   (what it iterates are graphql-core's insertion-ordered maps; the only sets are tested for membership) *)
-Example C10_schema_strategy_sites_order_free :
-  forallb (fun s => negb (order_sensitive (s_sink s)))
-    (filter (fun s => String.prefix "graphql_schema_generators/" (s_file s) || String.eqb (s_file s) "schema.py"
-                      || String.eqb (s_file s) "settings.py" || String.eqb (s_file s) "config.py")
-            site_table) = true /\
-  List.length (filter (fun s => String.prefix "graphql_schema_generators/" (s_file s)) site_table) = 1.
-Proof. vm_compute. split; reflexivity. Qed.
 
 (* ---- regeneration ---- *)
 Theorem C10_regenerate_idempotent : forall p fs,
@@ -190,37 +122,47 @@ Theorem C10_regenerate_keeps_other_files : forall p fs m,
   ~ In m (map fst p) -> fs_lookup m (write_all p fs) = fs_lookup m fs.
 Proof. exact regenerate_keeps_other_files. Qed.
 
-(* ---- several generations in one interpreter (ClientForwardRefsPlugin mutates shared import nodes) ---- *)
-Definition C10_history_independent_full : Prop := forall hist plugin wanted st,
-  fst (gen_client_imports false plugin wanted (run_history false hist st)) =
-  fst (gen_client_imports false plugin wanted st).
+(* ---- several generations in one interpreter: any history, plugin or not ---- *)
+Theorem C10_history_independent : forall hist plugin wanted st,
+  fst (gen_client_imports plugin wanted (run_history hist st)) = fst (gen_client_imports plugin wanted st).
+Proof. exact gen_history_independent. Qed.
+Print Assumptions C10_history_independent.
 
-Theorem C10_history_partial : forall hist plugin wanted st,
-  forallb (fun h => negb (fst h)) hist = true ->
-  fst (gen_client_imports false plugin wanted (run_history false hist st)) =
-  fst (gen_client_imports false plugin wanted st).
-Proof. exact gen_history_partial. Qed.
-Print Assumptions C10_history_partial.
+(* ---- regression Examples: the witnesses of the repaired findings ---- *)
+(* F12 (fixed by 93e79d6): the two oracles that split the pre-fix DFS now agree; before, they differed — but
+   even then only in order (same classes) *)
+Example C10_regression_F12 :
+  frag_module_order orc_id fi_f12 = frag_module_order (orc_of [("FragA", [1])]) fi_f12 /\
+  frag_module_order orc_id fi_f12 = Some (["FragA"; "FragB"; "FragC"], ["FragB"; "FragC"; "FragA"]) /\
+  frag_module_order_unsorted orc_id fi_f12 <> frag_module_order_unsorted (orc_of [("FragA", [1])]) fi_f12.
+Proof. vm_compute. repeat split; discriminate. Qed.
 
-Theorem C10_history_refuted : exists hist plugin wanted st,
-  fst (gen_client_imports false plugin wanted (run_history false hist st)) <>
-  fst (gen_client_imports false plugin wanted st).
-Proof. exact gen_history_refuted. Qed.
-Print Assumptions C10_history_refuted.
+Theorem C10_unsorted_dfs_only_reordered : forall o1 o2 fi p1 ord1 p2 ord2,
+  frag_module_order_unsorted o1 fi = Some (p1, ord1) -> frag_module_order o2 fi = Some (p2, ord2) ->
+  p1 = p2 /\ Permutation ord1 ord2.
+Proof. exact frag_module_unsorted_same_classes. Qed.
 
-Theorem C10_history_full_refuted : ~ C10_history_independent_full.
-Proof. intro H. destruct gen_history_refuted as [h [p [w [st D]]]]. apply D. apply H. Qed.
+(* isort key tie (fixed by 93e79d6): FooBar / Foobar *)
+Example C10_regression_isort_tie :
+  op_import_names [] ["FooBar"; "Foobar"] = op_import_names [1] ["FooBar"; "Foobar"] /\
+  op_import_names [1] ["FooBar"; "Foobar"] = ["FooBar"; "Foobar"] /\
+  op_import_names_unsorted [] ["FooBar"; "Foobar"] <> op_import_names_unsorted [1] ["FooBar"; "Foobar"].
+Proof. vm_compute. repeat split; discriminate. Qed.
 
-Theorem C10_twice_with_plugin_refuted : exists wanted st,
-  fst (gen_client_imports false true wanted (snd (gen_client_imports false true wanted st))) <>
-  fst (gen_client_imports false true wanted st).
-Proof. exact gen_twice_with_plugin_refuted. Qed.
+(* shared import nodes (fixed by be644af): a plain generation after a ClientForwardRefs one *)
+Example C10_regression_process_state :
+  fst (gen_client_imports false [] (run_history [(true, ["UnsetType"])] st_initial))
+    = fst (gen_client_imports false [] st_initial) /\
+  fst (gen_client_imports_mutating false [] (snd (gen_client_imports_mutating true ["UnsetType"] st_initial)))
+    <> fst (gen_client_imports_mutating false [] st_initial) /\
+  fst (gen_client_imports_mutating true ["UnsetType"] (snd (gen_client_imports_mutating true ["UnsetType"] st_initial)))
+    <> fst (gen_client_imports_mutating true ["UnsetType"] st_initial).
+Proof. vm_compute. repeat split; discriminate. Qed.
 
-Theorem C10_history_fixed : forall hist plugin wanted st,
-  fst (gen_client_imports true plugin wanted (run_history true hist st)) =
-  fst (gen_client_imports true plugin wanted st).
-Proof. exact gen_fixed_history_independent. Qed.
-Print Assumptions C10_history_fixed.
+(* the __typename literal is stable BECAUSE generate_typename_annotation sorts *)
+Example C10_typename_needs_its_sort : exists c1 c2 abs tn ps,
+  typename_values_raw c1 abs tn ps <> typename_values_raw c2 abs tn ps.
+Proof. exact typename_values_raw_refuted. Qed.
 
 (* ---- non-vacuity ---- *)
 Definition fi_diamond : finput :=
@@ -228,12 +170,8 @@ Definition fi_diamond : finput :=
      fi_mix := [("A", ["L"; "R"]); ("L", ["Z"]); ("R", ["Z"]); ("Z", []); ("Unused", [])];
      fi_excl := ["Unused"] |}.
 Example C10_model_runs :
-  frag_module_order true (orc_of [("A", [1])]) fi_diamond =
-    Some (["A"; "L"; "R"; "Z"], ["Z"; "L"; "R"; "A"]) /\
-  frag_module_order false (orc_of [("A", [1])]) fi_diamond =
-    Some (["A"; "L"; "R"; "Z"], ["Z"; "R"; "L"; "A"]) /\
-  g_c10_dfs fi_diamond = false /\
-  g_c10_dfs {| fi_defs := ["A"; "B"]; fi_mix := [("A", ["B"]); ("B", [])]; fi_excl := [] |} = true /\
+  frag_module_order (orc_of [("A", [1])]) fi_diamond = Some (["A"; "L"; "R"; "Z"], ["Z"; "L"; "R"; "A"]) /\
+  frag_module_order_unsorted (orc_of [("A", [1])]) fi_diamond = Some (["A"; "L"; "R"; "Z"], ["Z"; "R"; "L"; "A"]) /\
   permute [2; 0; 1] ["a"; "b"; "c"; "d"] = ["c"; "a"; "d"; "b"] /\
   str_sort ["b"; "a"; "B"; "a1"; ""] = [""; "B"; "a"; "a1"; "b"] /\
   isort_names ["zed"; "Foobar"; "FooBar"; "ABC"; "Zed"] = ["ABC"; "Foobar"; "FooBar"; "Zed"; "zed"] /\
@@ -241,5 +179,7 @@ Example C10_model_runs :
     = [["a"; "x.gql"]; ["a-b.graphql"]; ["b.graphql"]] /\
   typename_literal [1] "Node" ["Node"; "Cat"] ["Dog"; "Cat"; "Ant"] = ["Ant"; "Dog"; "Node"] /\
   write_all [("a.py", "1"); ("b.py", "2")] [("stale.py", "x"); ("a.py", "0")]
-    = [("stale.py", "x"); ("a.py", "1"); ("b.py", "2")].
+    = [("stale.py", "x"); ("a.py", "1"); ("b.py", "2")] /\
+  fst (gen_client_imports true ["UnsetType"] st_initial)
+    = ([("base_model", ["UNSET"]); ("base_model", ["Upload"]); ("async_base_client", ["AsyncBaseClient"])], ["UnsetType"]).
 Proof. vm_compute. repeat split. Qed.
